@@ -55,11 +55,12 @@ fn letter_of(m: &Method) -> char {
 }
 
 fn rid_of(request: &IncomingRequest) -> String {
-    request.base_headers.via[0]
-        .params
-        .get_val("branch")
-        .map(|b| b.to_string().trim_start_matches("z9hG4bK").to_string())
-        .unwrap_or_default()
+    let b = request.base_headers.via[0].params.get_val("branch").map(|b| b.to_string()).unwrap_or_default();
+    if let Some(rid) = b.strip_prefix("z9hG4bK") {
+        return rid.to_string();
+    }
+    // a legacy client (one cookie-less branch for all its requests): the request id is in the Call-ID
+    request.base_headers.call_id.0.trim_start_matches("out-").to_string()
 }
 
 fn is_setup(request: &IncomingRequest) -> bool {
@@ -248,6 +249,15 @@ async fn run_case(case: Vec<String>) -> String {
                     };
                     inject(&endpoint, text.as_bytes(), source, &tp);
                 }
+                "G" => {
+                    // an out-of-dialog request of a legacy client: RFC 2543 style branch, the same one for every request it sends
+                    let m = method_of(p[1].chars().next().unwrap());
+                    let text = format!(
+                        "{m} sip:me@10.0.0.1 SIP/2.0\r\nVia: SIP/2.0/UDP 10.9.9.9:5060;branch=leg7\r\nFrom: <sip:peer@example.org>;tag=o{rid}\r\nTo: <sip:me@example.org>\r\nCall-ID: out-{rid}\r\nCSeq: {c} {m}\r\nMax-Forwards: 70\r\nContent-Length: 0\r\n\r\n",
+                        m = m, rid = p[4], c = p[3]
+                    );
+                    inject(&endpoint, text.as_bytes(), source, &tp);
+                }
                 "P" => {
                     let text = format!(
                         "SIP/2.0 {code} X\r\nVia: SIP/2.0/UDP 10.0.0.1:5060;branch=z9hG4bK{rid}\r\nFrom: <sip:me@example.org>;tag=s{rid}\r\nTo: <sip:peer@example.org>;tag=t\r\nCall-ID: stray-{rid}\r\nCSeq: 1 OPTIONS\r\nContent-Length: 0\r\n\r\n",
@@ -274,12 +284,20 @@ async fn run_case(case: Vec<String>) -> String {
     for w in wire.lock().iter() {
         let text = String::from_utf8_lossy(&w.2).to_string();
         let first = text.lines().next().unwrap_or("").to_string();
-        let branch = text
+        let mut branch = text
             .lines()
             .find(|l| l.to_ascii_lowercase().starts_with("via:"))
             .and_then(|l| l.split("branch=z9hG4bK").nth(1))
             .map(|b| b.split(|c| c == ';' || c == ',' || c == ' ').next().unwrap_or("").to_string())
             .unwrap_or_default();
+        if branch.is_empty() && text.contains("branch=leg7") {
+            // the answer to a legacy client's request: identified by the Call-ID
+            branch = text
+                .lines()
+                .find(|l| l.to_ascii_lowercase().starts_with("call-id:"))
+                .map(|l| l[8..].trim().trim_start_matches("out-").to_string())
+                .unwrap_or_default();
+        }
         let cseq = text
             .lines()
             .find(|l| l.to_ascii_lowercase().starts_with("cseq:"))
